@@ -102,6 +102,8 @@ def kani_cmd(unit, harnesses, export_json, jobs, timeout_s, extra=None):
         cmd += extra
     else:
         cmd += ["--output-format=terse", "-j", str(jobs)]
+        if os.environ.get("VERIF_FAIL_FAST"):
+            cmd += ["--fail-fast"]  # seeded-change runs only: stop at the first failing harness
     cmd += ["--exact"]
     for h in harnesses:
         cmd += ["--harness", unit["mod_path"] + "::" + h["name"]]
@@ -380,6 +382,8 @@ def main():
                 all_P = False
                 bounds.append(f"{h['name']}: {h.get('bound', 'bounded')}")
             hres = results.get(h["name"])
+            if hres is None and os.environ.get("VERIF_FAIL_FAST"):
+                continue
             if hres is None:
                 undecided.append(f"{h['name']}: harness not found in verifier output")
                 log(f"UNDECIDED property={prop} harness={h['name']} not found (renamed or cfg'd out)")
